@@ -223,7 +223,9 @@ class Run:
         self.failures = []
         self.cov = {"evaluations": 0, "distinct": set(), "samples": [], "histogram": {},
                     "skipped": 0, "shards": 0, "uncovered": []}
-        self.scratch = os.path.join(COQ, "Cases", "%s_%d" % (pid, os.getpid()))
+        # outside the -Q tree: coqdep walks /verif/coq and must not see directories that another
+        # run removes concurrently
+        self.scratch = os.path.join(VERIF, "scratch", "%s_%d" % (pid, os.getpid()))
         os.makedirs(self.scratch, exist_ok=True)
         self.notes = []
         self.proof = {"obligations": [], "ok": False, "cmd": "", "assumptions": {}, "log": ""}
@@ -337,6 +339,10 @@ def build_proofs(run, mod):
                      {"trace": gen_err[-2000:]})
             return
         rc, out, cmd = make([props_file + "o"])
+        for _ in range(3):
+            if rc != 0 and ("Sys_error" in out or ".Makefile.coq.d" in out or "Anomaly" in out):
+                time.sleep(1.0)       # a concurrent run touched the tree while coqdep scanned it
+                rc, out, cmd = make([props_file + "o"])
         run.proof["cmd"] = "cd /verif/coq && " + cmd
         run.proof["log"] = out[-4000:]
     if rc != 0:
